@@ -42,4 +42,22 @@ CLAIMS = {
         "No axioms (Closed under the global context).",
    technique="Coq proof (decision table + iff characterisation, all strings) + Go->Gallina translation tie + differential correspondence (product + random grammar + client status sweep)",
    ref="5/C20"),
+ "C17": dict(
+   text="Coq: lockset theorem (Conc.v) — any access table in which every write happens under the write lock and every read under "
+        "the read or write lock has no reachable data race for any number of goroutines, programs and schedules — instantiated with "
+        "the lock/access table of blockstore.Put/Get/Iterator (including the returned iterator closure) that is re-extracted from "
+        "blockstore.go on every run (Tie_Locks.v fails to compile when the discipline is broken). Blockstore.v proves, for an "
+        "access-by-access model of the code under the RW lock, that every concurrent execution is linearizable: results and final "
+        "store are those of one sequential run of a merge of the goroutines' operations, for which NoDup keys / every put block "
+        "retrievable / first put wins / iteration order = first-put order are proved. A -race build runs seeded histories "
+        "(2/4/8 goroutines x GOMAXPROCS 1/2/4/16; Put incl. duplicates, Get, Iterator during Puts, delegation.Attach + Blocks); "
+        "race reports and runtime faults are violations and every finished history is judged in coqc by a checker proved sound "
+        "for the linearizability spec. PARTIAL: the theorems are about the lock protocol in a sequentially consistent interleaving "
+        "semantics; the Go memory model is not formalised, and the race-detector runs are a search, not a proof.",
+   note="Trusted: Coq kernel; sync.RWMutex implements the reader/writer contract; the go/ast lock/access extractor (closed list of "
+        "forms, anything else is an error); interleaving semantics instead of the Go memory model; completeness of the greedy "
+        "linearization search is argued, not proved (its answers are validated). No axioms. The pinned Put (map write under RLock) "
+        "and the iterator closure reading after the unlock are refuted in Coq and reproduced by the race detector; fix: fixes/C17_locks.diff.",
+   technique="Coq proof (lockset invariant, linearizability by refinement) + lock-table extraction tie + race-detector history search judged by a verified checker",
+   ref="5/C17"),
 }
